@@ -686,8 +686,10 @@ func init() {
 	All["C13"].Run = func(c *an.Ctx) {
 		old(c)
 		c13purgeEveryIndex(c)
+		c13tombstoneRegistry(c)
 	}
-	All["C13"].Rules += " R9"
+	All["C13"].Rules += " R9 R10"
+	addLevel("C13", "dropping a retention policy or database removes the policy's tombstone index from the partition's registry once it is closed (a re-created policy gets a fresh one attached); the in-memory deleted set is loaded from disk only when the tombstone index is attached, never on the DROP SERIES path (which appends to it).")
 }
 
 // c13purgeEveryIndex — C13.R9.  Dropped series are removed from the index files by a periodic
@@ -719,4 +721,53 @@ func c13purgeEveryIndex(c *an.Ctx) {
 		an.AtomLike(`^nil==.*DeleteMergeSet\(\)$`, true),
 		an.AtomLike(`^nil==.*GetDeletedTSIDs\(\)$`, true),
 		an.AtomLike(`^0<.*GetDeletedTSIDs\(\)\.Len\(\)$`, false))
+}
+
+// c13tombstoneRegistry — C13.R10.  Every partition keeps one tombstone index per retention policy
+// (delIndexBuilderMap).  DROP SERIES attaches the registered index to the policy's series indexes
+// when it CREATES the registry entry.  (a) When a policy (or database) is dropped its entry must
+// leave the registry with the closed index: a stale entry makes a re-created policy of the same
+// name skip the attach step, its drops are acknowledged and never hide a series.  (b) The
+// in-memory deleted set is replaced from disk (LoadDeletedTSIDs) only when the index is attached;
+// reloading it on the drop path discards ids that were appended moments ago and are not
+// searchable yet.
+func c13tombstoneRegistry(c *an.Ctx) {
+	const E = "engine"
+	r := c.Rule("C13.R10", "K-ORDER(pairing)+K-WHOCALLS", E+": a tombstone index closed by a drop leaves delIndexBuilderMap; LoadDeletedTSIDs is called only when the index is attached")
+	reg := obj(r, E+":DBPTInfo.delIndexBuilderMap")
+	if reg == nil {
+		return
+	}
+	n := 0
+	for _, spec := range []string{E + ":EngineImpl.deleteIndexes", E + ":EngineImpl.deleteShardsAndIndexes"} {
+		f := fn(r, spec)
+		if f == nil {
+			continue
+		}
+		uses := f.Find(an.MRead("delIndexBuilderMap", reg))
+		dels := f.Find(an.MNode("delete(<pt>.delIndexBuilderMap, rp)", func(g *an.Fn, m ast.Node) bool {
+			ce, ok := m.(*ast.CallExpr)
+			if !ok || len(ce.Args) != 2 {
+				return false
+			}
+			id, ok := ce.Fun.(*ast.Ident)
+			if !ok || id.Name != "delete" {
+				return false
+			}
+			sel, ok := ast.Unparen(ce.Args[0]).(*ast.SelectorExpr)
+			return ok && g.Info.Uses[sel.Sel] == reg
+		}))
+		n += uses.Len() + dels.Len()
+		if uses.Len() == 0 {
+			r.Fail(f.Name+": registry", c.P.Pos(f.Body.Pos()), "%s no longer touches the tombstone registry of the partition", f.Name)
+			continue
+		}
+		if dels.Len() == 0 {
+			r.Fail(f.Name+": entry kept", c.P.Pos(uses.List[0].Node.Pos()), "%s closes the tombstone index of the dropped policy but leaves its entry in delIndexBuilderMap: a policy re-created under the same name finds the stale entry and never gets a tombstone index attached — DROP SERIES is acknowledged and hides nothing", f.Name)
+		}
+	}
+	c.WhoCalls(r, obj(r, "engine/index/tsi:MergeSetIndex.LoadDeletedTSIDs"), "MergeSetIndex.LoadDeletedTSIDs", an.Allowed{
+		E + ":SetDelMergeSetForEachMergeSet": "attach of the tombstone index to the policy's series indexes (open / first drop)",
+	})
+	r.AddSites(n)
 }
